@@ -9,6 +9,7 @@ import Holpy.C20.ProofsParseWf
 import Holpy.C20.ProofsLex4
 import Holpy.C20.ProofsLexCom
 import Holpy.C20.ProofsVcWf
+import Holpy.C20.ProofsComParse
 /-
 C20 — property theorems (helper lemmas: Proofs.lean, ProofsSem.lean, ProofsParse.lean).
 `Exec` is the big-step semantics of Proofs.lean, `holds s e` is `evalE s e = some (.bool true)`,
@@ -100,6 +101,28 @@ theorem vcs_partial_only : ∃ p q c, (∀ v ∈ vcsOf p c q, valid v) ∧ (∀ 
    fun _ => rfl, fun s h => by simp [holds, evalE] at h, no_exec_loop etrue⟩
 
 example : (vcsOf etrue (.while (.bool true) etrue .skip) (.bool false)).length = 3 := by decide
+
+/-! ### the theorem `imp.vcg` / `vcg_norm` / `vcg_solve` return, as a HOL statement
+
+`Gen.Valid`, `Gen.Sem` are the definitions of library/hoare.json (Gen.lean, regenerated each run);
+`embed c`, `bval p` are the HOL terms a program / assertion denotes; a condition `Aᵢ` is the closed
+formula `∀s. vᵢ s`, i.e. `valid vᵢ`. -/
+
+/-- The statement `A₁ ⟶ … ⟶ Aₙ ⟶ Valid P c Q` that `imp.vcg_norm` returns is true (for well-sorted `c`). -/
+theorem vcg_statement_true (p q : Expr) (c : Com) (hw : wsCom c = true) :
+    chain ((vcsH p c q).map valid) (Gen.Valid (bval p) (embed c) (bval q)) := by
+  rw [chain_iff]
+  intro h
+  exact valid_triple p q c hw (fun v hv => h (valid v) (List.mem_map.mpr ⟨v, hv, rfl⟩))
+
+/-- `vcg_solve`: when every condition has been discharged (zero remaining `Aᵢ`), the triple
+`Valid P c Q` of library/hoare.json holds. -/
+theorem vcg_solve_sound (p q : Expr) (c : Com) (hw : wsCom c = true) (hv : ∀ v ∈ vcsH p c q, valid v) :
+    Gen.Valid (bval p) (embed c) (bval q) :=
+  valid_triple p q c hw hv
+
+/-- non-vacuity: the countdown loop; its three conditions are valid, so the HOL triple holds. -/
+example : wsCom Ex.prog = true ∧ ((vcsH Ex.inv Ex.prog Ex.post).map valid).length = 3 := by decide
 
 /-! ### the interpreter and the semantics -/
 
@@ -244,6 +267,50 @@ theorem lex_print_com (c : Com) (h : lexOKc c = true) : lex (ppCom c) = some (co
 example : lexOKc (.seq Ex.prog (.cond (.bin .le (.var "a") (.int 0)) .skip (.assign "b_1" (.un .neg (.var "a"))))) = true ∧
     (comToks (.seq Ex.prog (.cond (.bin .le (.var "a") (.int 0)) .skip (.assign "b_1" (.un .neg (.var "a")))))).length = 32 := by decide
 
+/-! ### printing and re-parsing programs -/
+
+/-- For every program `print_com` can express (`printableCom`, decidable: the first part of a sequence is
+neither a sequence nor a conditional; guards, invariants, assigned expressions in the assertion language;
+names are identifiers), parsing the printed TEXT gives the program back, up to the reading of negative
+constants. -/
+theorem com_parse_print (c : Com) (h : printableCom c = true) : parseCom (ppCom c) = some (normNegCom c) := by
+  simp only [printableCom, Bool.and_eq_true] at h
+  simp only [parseCom, lex_print_com c h.2, Option.bind]
+  exact parseComToks_print h.1.1 h.1.2
+
+/-- … and the program read back executes exactly like the one printed. -/
+theorem com_parse_print_exec (c : Com) (h : printableCom c = true) :
+    ∃ c', parseCom (ppCom c) = some c' ∧ ∀ s t, Exec c' s t ↔ Exec c s t :=
+  ⟨normNegCom c, com_parse_print c h, exec_normNegCom c⟩
+
+/-- non-vacuity with a loop, a sequence and a conditional -/
+example : printableCom (.seq Ex.prog (.cond (.bin .le (.var "a") (.int 0)) .skip (.assign "b_1" (.un .neg (.var "a"))))) = true := by decide
+
+namespace Ex
+/-- `(if (x == 0) then x := 1 else skip); y := 1` — not expressible by `print_com` -/
+def bad : Com := .seq (.cond (.bin .eq (.var "x") (.int 0)) (.assign "x" (.int 1)) .skip) (.assign "y" (.int 1))
+/-- what it is read back as: `if (x == 0) then x := 1 else (skip; y := 1)` -/
+def badRead : Com := .cond (.bin .eq (.var "x") (.int 0)) (.assign "x" (.int 1)) (.seq .skip (.assign "y" (.int 1)))
+end Ex
+
+/-- The known finding, proved: a sequence whose first part is a conditional prints with the tokens of the
+conditional whose else-branch swallows the rest, is read back as that program, and the two behave
+differently (from x = 0 one ends with y = 1, the other with y = 0). -/
+theorem seq_after_cond_counterexample :
+    printableCom Ex.bad = false ∧ parseCom (ppCom Ex.bad) = some Ex.badRead ∧
+    Exec Ex.bad (fun _ => 0) (upd (upd (fun _ => 0) "x" 1) "y" 1) ∧
+    Exec Ex.badRead (fun _ => 0) (upd (fun _ => 0) "x" 1) := by
+  refine ⟨by decide, ?_, ?_, ?_⟩
+  · have h1 : lex (ppCom Ex.bad) = some (comToks Ex.bad) := lex_print_com _ (by decide)
+    have h2 : comToks Ex.bad = comToks Ex.badRead := by decide
+    have h3 : parseComToks (comToks Ex.badRead) = some (normNegCom Ex.badRead) := parseComToks_print (by decide) (by decide)
+    have h4 : normNegCom Ex.badRead = Ex.badRead := by decide
+    simp only [parseCom, h1, Option.bind, h2, h3, h4]
+  · exact .seq (.condT (by simp [evalE, evalBin]) (.assign rfl)) (.assign rfl)
+  · exact .condT (by simp [evalE, evalBin]) (.assign rfl)
+
+example : (upd (upd (fun _ => (0 : Int)) "x" 1) "y" 1) "y" ≠ (upd (fun _ => (0 : Int)) "x" 1) "y" := by decide
+
 /-! ### `Sem` of library/hoare.json (Gen.lean is regenerated from the library on every run) -/
 
 /-- The inductive predicate `Sem` defined by the rules `Sem_basic … Sem_while_loop` of
@@ -275,6 +342,27 @@ theorem typed_total (s : State) (e : Expr) :
   ty_sound s e
 
 example : tyC (.ite (.bin .ge (.var "a") (.int 0)) (.bin .eq (.fn1 .abs (.var "a")) (.var "a")) (.bool false)) = true := by decide
+
+/-- `imp.eval_Sem`: whenever the model of the function returns a derivation `d` and a final state `t`
+for (c, s), `d` is a well-formed derivation from the theorems `Sem_Skip`, `Sem_Assign`, `Sem_seq`, `Sem_if1`,
+`Sem_if2`, `Sem_while_skip`, `Sem_while_loop` of library/hoare.json, it proves `Sem c s t` in the inductive
+`Sem` the library defines, and `t` is the state the direct interpreter computes. So the theorem the real
+function returns (same statement and same rule sequence: compared per run) states a true fact. -/
+theorem eval_Sem_derives (n : Nat) (c : Com) (s t : State) (d : Deriv) (h : evalSem n c s = some (d, t)) :
+    DerivOK d (embed c) s t ∧ Gen.Sem (embed c) s t ∧ interp n c s = .ok t ∧ Exec c s t :=
+  have hs := evalSem_spec n c s d t h
+  ⟨hs.1, derivOK_sound hs.1, hs.2, interp_exec n c s t hs.2⟩
+
+/-- non-vacuity: the countdown loop from a = 1: the derivation is Sem_while_loop(Sem_Assign, Sem_while_skip). -/
+example : ∃ d t, evalSem 5 Ex.prog Ex.s1 = some (d, t) ∧ d.rules = ["Sem_while_loop", "Sem_Assign", "Sem_while_skip"] ∧ t "a" = 0 :=
+  ⟨_, _, rfl, by decide, by decide⟩
+
+/-- `eval_Sem` succeeds exactly when the interpreter does (same fuel), so on every terminating, non-stuck
+run the real function's result is covered by `eval_Sem_derives`. -/
+theorem eval_Sem_total (n : Nat) (c : Com) (s t : State) (h : interp n c s = .ok t) : ∃ d, evalSem n c s = some (d, t) :=
+  evalSem_of_interp n c s t h
+
+example : ∃ d, evalSem 3 (.seq .skip (.assign "x" (.int 2))) (fun _ => 0) = some (d, upd (fun _ => 0) "x" 2) := ⟨_, rfl⟩
 
 /-- the rule list translated is the one the proof above was written for -/
 theorem sem_rules_pinned : Gen.semRuleNames =
